@@ -57,6 +57,15 @@ def findDesc (d : List (ModDesc J)) (m a : String) : Option (AccDesc J) :=
   | none => none
   | some md => md.accs.find? (fun ad => ad.name == a)
 
+/-- `Module.__init__` (modulebase.py 388-390): "list of only the 'highest' secop module class" —
+`[b.__name__ for b in mycls.__mro__ if b.__name__ in SECoP_BASE_CLASSES][:1]` -/
+def interfaceClassesOf (base : List String) (mro : List ClassInfo) : List String :=
+  ((mro.map (·.name)).filter (fun c => base.contains c)).take 1
+
+/-- `[b.__name__ for b in mycls.__mro__ if Feature in b.__bases__]` (modulebase.py 393) -/
+def featuresOf (mro : List ClassInfo) : List String :=
+  (mro.filter (·.isFeature)).map (·.name)
+
 /-- `handle_activate`, the part before `subscribe`: `some cls` = refused with that class, nothing subscribed;
 `none` = the connection is subscribed (what happens then is C08's business) -/
 def activateRefusal (pre : Predef) (n : Node J V) : Spec → Option ErrCls
